@@ -354,3 +354,69 @@ func TestC06_DuplicateLabels(t *testing.T) {
 	}
 	stats.ExhaustivePart("duplicate label x spelling x bucket x layer", n)
 }
+
+// TestC06_LargeCrit: promptness on large but well-formed inputs whose parts refer to each other: a protected
+// header with n parameters all of which are listed in crit (n up to 100 000, about 1 MB). The unchanged decoder
+// needs a fraction of a second; the deadline is two orders of magnitude above that, so that only a change in
+// the growth (a lookup that became a scan) can exceed it.
+type c06CritCase struct {
+	N    int          `json:"n"`
+	Kind refcose.Kind `json:"kind"`
+}
+
+func checkC06LargeCrit(c c06CritCase) error {
+	m := rc.Map(rc.E(rc.Int(1), rc.Int(-7)))
+	var crit []rc.Val
+	for i := 0; i < c.N; i++ {
+		l := rc.Int(int64(1000 + i))
+		if i%5 == 4 {
+			l = rc.Text(fmt.Sprintf("p%d", i))
+		}
+		m.M = append(m.M, rc.E(l, rc.Int(0)))
+		crit = append(crit, l)
+	}
+	m.M = append(m.M, rc.E(rc.Int(2), rc.Array(crit...)))
+	prot := rc.Encode(rc.Bytes(rc.Encode(m, nil)), nil)
+	var w []byte
+	switch c.Kind {
+	case refcose.KProtected:
+		w = prot
+	case refcose.KSign1:
+		w = append(append(append([]byte{0xd2, 0x84}, prot...), 0xa0, 0x41, 0x70), 0x41, 0x01)
+	default:
+		w = append(append([]byte{0x83}, prot...), 0xa0, 0x41, 0x01)
+	}
+	done := make(chan error, 1)
+	start := time.Now()
+	go func() {
+		_, err := decodeAny(c.Kind, w)
+		done <- err
+	}()
+	select {
+	case err := <-done:
+		if err != nil {
+			return finding("large-crit-refused", "a well-formed %v with %d protected parameters, all listed in crit, is refused: %v", c.Kind, c.N, err)
+		}
+	case <-time.After(40 * time.Second):
+		return finding("not-prompt/large-crit", "decoding a well-formed %v of %d bytes (%d protected parameters, all listed in crit) has not returned after 40 s (the unchanged library needs well under a second)", c.Kind, len(w), c.N)
+	}
+	stats.Class(fmt.Sprintf("large-crit/n=%d", c.N))
+	stats.Note(fmt.Sprintf("large-crit %v n=%d", c.Kind, c.N), fmt.Sprintf("%d bytes decoded in %v", len(w), time.Since(start).Round(time.Millisecond)))
+	return nil
+}
+
+func init() { register("c06crit", checkC06LargeCrit) }
+
+func TestC06_LargeCrit(t *testing.T) {
+	begin(t, "C06", "largecrit")
+	n := 0
+	for _, k := range []refcose.Kind{refcose.KProtected, refcose.KSign1, refcose.KCountersignature} {
+		for _, cnt := range []int{1000, 30000, 100000} {
+			n++
+			stats.Eval()
+			stats.NTBytes([]byte(fmt.Sprint(k, cnt)))
+			judge(t, "c06crit", c06CritCase{N: cnt, Kind: k}, checkC06LargeCrit)
+		}
+	}
+	stats.ExhaustivePart("large crit lists", n)
+}
